@@ -218,6 +218,50 @@ const int ALPHA_R[6] = {32, 24, 30, 94, 45, 47};
 
 }   // namespace
 
+// ------------------------------------------------------------------------------------------- caches are per thread
+// (Registered FIRST: its cases run in forked children of a parent process that has not yet touched the library.)
+// Several threads, run one after the other inside ONE case: each must see empty caches at its start and follow the
+// LRU model from there, whatever the earlier threads requested ("each thread retains at most ... its most recently used").
+VK_SUB(pth, "per_thread_caches");
+static void pth_check(const Json& c, Out& o) {
+    // in a forked child: the first thread of the case then starts from a pristine PROCESS, so a cache that is (wrongly)
+    // shared between threads shows up at the second thread of the same case and the case replays on its own
+    run_forked(o, 120.0, [&](Out& co) {
+        int t = 0, ev = 0;
+        uint64_t k = 0x7C;
+        for (auto& hj : c.at("threads").a) {
+            std::vector<int> h;
+            for (auto& e : hj.a) h.push_back(int(e.integer()));
+            HistResult r = run_history(h);
+            ev += int(h.size());
+            for (int v : h) k = mix(k, uint64_t(v));
+            if (r.failed) { co.fail(t == 0 ? r.sig : "cache:thread-sees-other-threads-state:" + r.sig, fmt("thread %d of the case: ", t) + r.msg + " history=" + show(h)); break; }
+            ++t;
+        }
+        co.evals = ev;
+        if (t >= 2) co.nontrivial(k);
+        co.label(fmt("threads:%d", int(c.at("threads").size())));
+        co.label(fmt("capacity:%d", verif::fft_cache_capacity()));
+    });
+}
+static void pth_gen(Ctx& ctx) {
+    ctx.rc("random", ctx.by_tier(16000, 160000), [&]() {
+        Json threads = Json::array();
+        int nt = pick(2, 4);
+        for (int t = 0; t < nt; ++t) {
+            std::vector<int> h;
+            int len = pick(1, 6);
+            for (int i = 0; i < len; ++i) {
+                bool real = flip();
+                int kind = real ? one_of<int>({K_RFFT, K_PLAN_R, K_FFT_REAL}) : one_of<int>({K_FFT, K_IFFT, K_PLAN_C});
+                h.push_back(code(kind, real ? ALPHA_R[pick(0, 5)] : ALPHA_C[pick(0, 5)]));
+            }
+            threads.push(Json(h));
+        }
+        return Json::object().set("threads", threads);
+    });
+}
+
 // ------------------------------------------------------------------------------------------- exhaustive short histories
 VK_SUB(exc, "histories_complex_cache");
 static void exc_check(const Json& c, Out& o) { history_check(c, o); }
